@@ -394,7 +394,7 @@ var urlPool = []string{
 }
 
 /* media types around the grammar `token "/" token` followed by anything */
-var mediaTypePool = []string{
+var objMediaTypePool = []string{
 	"text/html", "TEXT/HTML", "Text/Html", "text/plain", "text/gemini", "text/markdown", "text/x-markdown", "text/htmlx", "xtext/html", "text/htm", "text/html5",
 	"text/html;charset=utf-8", "text/html; charset=utf-8", "text/html ;charset=utf-8", "text/html\n", "text/html\r\n", "text/html ", " text/html", "\ntext/html", "text/html/", "text//html", "text/ html", "text /html", "text\n/html", "text/\nhtml",
 	"text/html,text/plain", "text/html text/plain", "text/html\ntext/plain", "text/plain\ntext/html", "x\ntext/html", "/", "//", "a/", "/b", "a", "", "*/*", "*", "text/*", "*/html", "a/b", "A/B", "0/1", "-/-", "./.", "a.b/c.d", "a_b/c_d", "a~/~b", "a|b/c|d", "a`/`b", "a^/^b",
@@ -458,7 +458,7 @@ func genSuitedString(r *rand.Rand, acc string) string {
 	case 1:
 		base = pick(r, urlPool)
 	case 2:
-		base = pick(r, mediaTypePool)
+		base = pick(r, objMediaTypePool)
 		if r.Intn(2) == 0 {
 			const tok = "!#$%&'*+-.^_`|~abcxyzABCXYZ0189"
 			word := func() string {
